@@ -41,5 +41,6 @@ func main() {
 		fams = sel
 	}
 	progs.Run(r, pool, fams, progs.Options{CasesPerProgram: 12, KeyPrefix: "C01"})
+	r.Extra("skipped_same_key_after_build_failure", progs.SkippedSameKey())
 	r.Finish()
 }
